@@ -95,11 +95,11 @@ var findingText = map[string]string{
 	"D18": "a keyword (or reserved word) directly followed by a newline reports the position after the newline: line+k, column ≤ 0; a docstring before it is dropped",
 	"D19": "a constant value directly after '=' or ':' is given the position of that '=' / ':'",
 	"D20": "a service's parent reference is given the position of 'extends'",
-	"D41": "idl.Info.Pos of an integer/double/boolean/string constant is the position of the LAST constant with an equal value (NodePositions is keyed by node value)",
-	"D42": "'/**/' followed later by any '*/' is scanned as one docstring: everything in between is swallowed and its newlines are not counted",
-	"D43": "a syntax error at end of input that follows blanks, a comment or an unterminated comment is reported at column 1-lineStart (≤ 0): the scanner resets ts to 0 when it skips",
-	"D46": "inside a single-quoted literal a quote character written as a numeric or \\u escape comes out as the other quote ('\\x27' yields a double quote): swapQuotes is applied to the unquoted result",
-	"D45": "a raw byte that is not well-formed UTF-8 inside a literal is replaced by U+FFFD (strconv.Unquote)",
+	"D61": "idl.Info.Pos of an integer/double/boolean/string constant is the position of the LAST constant with an equal value (NodePositions is keyed by node value)",
+	"D62": "'/**/' followed later by any '*/' is scanned as one docstring: everything in between is swallowed and its newlines are not counted",
+	"D63": "a syntax error at end of input that follows blanks, a comment or an unterminated comment is reported at column 1-lineStart (≤ 0): the scanner resets ts to 0 when it skips",
+	"D66": "inside a single-quoted literal a quote character written as a numeric or \\u escape comes out as the other quote ('\\x27' yields a double quote): swapQuotes is applied to the unquoted result",
+	"D65": "a raw byte that is not well-formed UTF-8 inside a literal is replaced by U+FFFD (strconv.Unquote)",
 }
 
 // ---- the generic oracles: any byte string ----
@@ -132,19 +132,19 @@ func explainOutside(doc []byte, ls []int, l, col int) string {
 	if l < 1 || l > len(ls) {
 		return ""
 	}
-	// a docstring that starts with "/**/" and spans lines (D42) loses newlines: every later
+	// a docstring that starts with "/**/" and spans lines (D62) loses newlines: every later
 	// line number, and every column computed against a line start, is off
 	if i := strings.Index(string(doc), "/**/"); i >= 0 {
 		if j := strings.Index(string(doc[i+4:]), "*/"); j >= 0 && strings.Contains(string(doc[i+4:i+4+j]), "\n") {
-			return "D42"
+			return "D62"
 		}
 	}
 	o := ls[l-1] + col - 1
 	if o >= ls[l-1] && o <= len(doc) {
 		// beyond the end of the reported line: the scanner lost newlines. The only construct that
-		// does that and lets scanning go on is a docstring that starts with "/**/" (D42).
+		// does that and lets scanning go on is a docstring that starts with "/**/" (D62).
 		if i := strings.Index(string(doc), "/**/"); i >= 0 && i < o && strings.Contains(string(doc[i+4:o]), "\n") {
-			return "D42"
+			return "D62"
 		}
 		return ""
 	}
@@ -152,11 +152,11 @@ func explainOutside(doc []byte, ls []int, l, col int) string {
 		return ""
 	}
 	if o == 0 {
-		return "D43"
+		return "D63"
 	}
 	rest := string(doc[o:])
 	if strings.HasPrefix(rest, "/*") {
-		return "D43"
+		return "D63"
 	}
 	for _, lists := range [][]string{keywordList, reservedList} {
 		for _, k := range lists {
